@@ -346,14 +346,14 @@ fn register_shapes(e: &mut Engine) {
         4
     });
     e.register_fn("fo", |a: Option<i32>, b: u8| -> i32 { record_call("fo", vec![a.to_json(), b.to_json()]); 5 });
-    e.register_fn("mk-p", |x: i32, s: String| -> P { record_call("mk-p", vec![x.to_json(), s.to_json()]); P { x, s } });
+    e.register_fn("mk-p", |x: i32, s: String| -> P { P { x, s } });
     e.register_fn("mk-q", |y: i32| -> Q { Q { y } });
     e.register_fn("p-x", |p: &P| -> i32 { record_call("p-x", vec![p.to_json()]); p.x });
-    e.register_fn("p-add", |p: &P, k: i32, t: String| -> i32 { record_call("p-add", vec![p.to_json(), k.to_json(), t.to_json()]); p.x + k });
+    e.register_fn("p-add", |p: &P, k: i32, t: String| -> i32 { record_call("p-add", vec![p.to_json(), k.to_json(), t.to_json()]); p.x.wrapping_add(k) });
     e.register_fn("p-set-x!", |p: &mut P, x: i32| { record_call("p-set-x!", vec![p.to_json(), x.to_json()]); p.x = x; });
-    e.register_fn("p-bump!", |p: &mut P| -> i32 { record_call("p-bump!", vec![p.to_json()]); p.x += 1; p.x });
+    e.register_fn("p-bump!", |p: &mut P| -> i32 { record_call("p-bump!", vec![p.to_json()]); p.x = p.x.wrapping_add(1); p.x });
     e.register_fn("p-same-x?", |a: &P, b: &P| -> bool { record_call("p-same-x?", vec![a.to_json(), b.to_json()]); a.x == b.x });
-    e.register_fn("p-scale", |k: i32, p: &P| -> i32 { record_call("p-scale", vec![k.to_json(), p.to_json()]); k * p.x });
+    e.register_fn("p-scale", |k: i32, p: &P| -> i32 { record_call("p-scale", vec![k.to_json(), p.to_json()]); k.wrapping_mul(p.x) });
     e.register_fn(
         "f16",
         |a: i32, b: i32, c: i32, d: i32, e_: i32, f: i32, g: i32, h: i32, i: i32, j: i32, k: i32, l: i32, m: i32, n: i32, o: i32, p: i32| -> i32 {
